@@ -427,6 +427,24 @@ pub fn run(ctx: &Ctx) {
         v
     }, super::c19::check_key_lens);
 
+    ctx.exhaustive("key_document_shapes", "SPKI and PKCS#8 documents (DER and PEM) around a genuine key with every combination of 6 algorithm OIDs x 10 AlgorithmIdentifier parameter shapes (curve OID, absent, NULL, another curve, empty / explicit SEQUENCE, INTEGER, OCTET STRING, extra element, empty OID) x 5 ECPrivateKey parameter shapes x 3 versions x 3 public-key shapes: never a panic, an accepted document yields the embedded key, the standard shape is accepted", || {
+        let mut v = Vec::new();
+        for alg in 0..6u8 {
+            for params in 0..10u8 {
+                for pem in [false, true] {
+                    for inner in 0..45u8 {
+                        // the full inner grid under the standard algorithm and under the shapes next to it; a diagonal elsewhere
+                        if !(alg == 0 && params <= 3) && inner % 7 != (alg + params) % 7 {
+                            continue;
+                        }
+                        v.push(super::c19::KeyDocShape { alg, params, inner_params: inner % 5, inner_version: (inner / 5) % 3, inner_public: inner / 15, pem });
+                    }
+                }
+            }
+        }
+        v
+    }, super::c19::check_key_doc_shape);
+
     ctx.exhaustive("sm4_iv_carry_family", "SM4 modes with IVs ending in t = 0..=16 bytes 0xFF (last byte also 0xFE, 0xFD, 0xF0: the counter carries or wraps inside the message) x data of 0..=100 bytes, encrypt and decrypt", || {
         let mut v = Vec::new();
         for e in ["sm4.mode.encrypt(mode,iv,data)", "sm4.mode.decrypt(mode,iv,data)"] {
